@@ -474,3 +474,63 @@ MM("index-integer-and-nothing-left", "C02.R5", [
     (F, PEEK, INDEX_INT.replace("        number = ", "        start = fobj.tell()\n        number = ").replace("if number == 0:", "if number == 0 and not fobj.read(1):")),
     (F, '            fobj.seek(-2, io.SEEK_CUR)\n', '            fobj.seek(start)\n'),
 ])
+
+# ---- fifth batch: enum members / magic values hoisted to module-level constants (single-definition aliases, also chained and
+# through cs_struct), the two mutually exclusive fix-up branches swapped, `break` of the outermost loop written as `return`
+XOR_KEYS = 'DEFAULT_XOR_KEYS: List[bytes] = [b"\\x69", b"\\x2e", b"\\x00"]\n'
+ALIASES = (
+    '_CONFIG_TERMINATOR = b"\\x00\\x00"\n'
+    '_USERAGENT_FIELD_SIZE = 0x80\n'
+    '_SETTING_USERAGENT = BeaconSetting.SETTING_USERAGENT\n'
+    '_SETTING_WATERMARKHASH = BeaconSetting.SETTING_WATERMARKHASH\n'
+    '_INJECT_OPTIONS = DeprecatedBeaconSetting.SETTING_INJECT_OPTIONS\n'
+    '_TYPE_SHORT = SettingsType.TYPE_SHORT\n'
+    '_TYPE_INT = SettingsType.TYPE_INT\n'
+)
+UA_BODY = UA.split("\n", 1)[1]
+WM_BODY = WM.split("\n", 1)[1]
+UA_ALIAS = (
+    '        if setting.index == _SETTING_USERAGENT:\n'
+    + UA_BODY.replace("setting.length == 0x80", "setting.length == _USERAGENT_FIELD_SIZE").replace(">= 0x80", ">= _USERAGENT_FIELD_SIZE")
+)
+WM_ALIAS = (
+    '        elif setting.index == _SETTING_WATERMARKHASH:\n'
+    + WM_BODY.replace("SettingsType.TYPE_SHORT", "_TYPE_SHORT").replace("DeprecatedBeaconSetting.SETTING_INJECT_OPTIONS", "_INJECT_OPTIONS")
+)
+# watermark branch first, User-Agent branch as the elif
+SWAPPED = WM_ALIAS.replace("        elif ", "        if ", 1) + UA_ALIAS.replace("        if ", "        elif ", 1)
+CONV_ALIAS = CONV.replace("SettingsType.TYPE_SHORT", "_TYPE_SHORT").replace("SettingsType.TYPE_INT", "_TYPE_INT")
+
+
+def _aliased(aliases=ALIASES, ua=UA_ALIAS, wm=WM_ALIAS, extra=()):
+    return [(F, XOR_KEYS, XOR_KEYS + "\n" + aliases), (F, UA + WM, ua + wm)] + list(extra)
+
+
+RETURNS = [(F, '            # end of beacon config\n            break\n', '            # end of beacon config\n            return\n'),
+           (F, '        except EOFError:\n            break\n', '        except EOFError:\n            return\n')]
+TT("twin-enum-members-hoisted", _aliased())
+TT("twin-enum-members-hoisted-branches-swapped-return", [(F, XOR_KEYS, XOR_KEYS + "\n" + ALIASES), (F, UA + WM, SWAPPED),
+                                                          (F, 'peek == b"\\x00\\x00"', 'peek == _CONFIG_TERMINATOR')] + RETURNS)
+TT("twin-branches-swapped", [(F, UA + WM, WM.replace("        elif ", "        if ", 1) + UA.replace("        if ", "        elif ", 1))])
+TT("twin-outer-break-as-return", RETURNS)
+TT("twin-enum-alias-chain", _aliased(ALIASES + '_UA_INDEX = _SETTING_USERAGENT\n', UA_ALIAS.replace("== _SETTING_USERAGENT", "== _UA_INDEX")))
+TT("twin-enum-alias-through-cs-struct", _aliased(ALIASES.replace("= BeaconSetting.", "= cs_struct.BeaconSetting.")
+                                                 .replace("= DeprecatedBeaconSetting.", "= cs_struct.DeprecatedBeaconSetting.")))
+TT("twin-record-type-members-hoisted-in-settings-map", _aliased(extra=[(F, CONV, CONV_ALIAS)]))
+TT("twin-enum-alias-mirrored-comparison", _aliased(ua=UA_ALIAS.replace("setting.index == _SETTING_USERAGENT", "_SETTING_USERAGENT == setting.index")))
+MM("hoisted-watermark-alias-wrong-member", "C02.R6", _aliased(ALIASES.replace("BeaconSetting.SETTING_WATERMARKHASH", "BeaconSetting.SETTING_WATERMARK")))
+MM("hoisted-aliases-used-crosswise", "C02.R6", [(F, XOR_KEYS, XOR_KEYS + "\n" + ALIASES),
+                                                 (F, UA + WM, SWAPPED.replace("_SETTING_WATERMARKHASH", "_TMP").replace("_SETTING_USERAGENT", "_SETTING_WATERMARKHASH")
+                                                  .replace("_TMP", "_SETTING_USERAGENT"))])
+MM("hoisted-rename-target-wrong-member", "C02.R6", _aliased(ALIASES.replace("DeprecatedBeaconSetting.SETTING_INJECT_OPTIONS", "DeprecatedBeaconSetting.SETTING_KILLDATE_YEAR")))
+MM("hoisted-short-alias-is-int", "C02.R6", _aliased(ALIASES.replace("_TYPE_SHORT = SettingsType.TYPE_SHORT", "_TYPE_SHORT = SettingsType.TYPE_PTR")))
+MM("hoisted-useragent-alias-chain-wrong-member", "C02.R6", _aliased(ALIASES + '_UA_INDEX = _SETTING_WATERMARKHASH\n', UA_ALIAS.replace("== _SETTING_USERAGENT", "== _UA_INDEX")))
+MM("hoisted-record-type-aliases-swapped-in-settings-map", "C02.R2", _aliased(
+    ALIASES.replace("_TYPE_SHORT = SettingsType.TYPE_SHORT", "_TYPE_SHORT = SettingsType.TYPE_INT").replace("_TYPE_INT = SettingsType.TYPE_INT", "_TYPE_INT = SettingsType.TYPE_SHORT"),
+    wm=WM_ALIAS.replace("_TYPE_SHORT", "SettingsType.TYPE_SHORT"), extra=[(F, CONV, CONV_ALIAS)]))
+MM("swapped-branches-length-test-dropped", "C02.R6", [(F, UA + WM, (WM.replace("        elif ", "        if ", 1) + UA.replace("        if ", "        elif ", 1))
+                                                       .replace("            if setting.length == 0x80:\n", "            if True:\n"))])
+# a member named through a class attribute is not a module-level single-definition constant (L6 does not apply): the guard
+# compares the index with a term that is not a constant of the code -> undecided, never a violation
+TT("twin-enum-member-through-class-attribute", [(F, XOR_KEYS, XOR_KEYS + '\n\nclass _Index:\n    USERAGENT = BeaconSetting.SETTING_USERAGENT\n\n'),
+                                                (F, "setting.index == BeaconSetting.SETTING_USERAGENT", "setting.index == _Index.USERAGENT")])
